@@ -120,7 +120,8 @@ CHECKS = {
               "coefficient), C09_string_errors (every string is read or rejected with the syntax / convexity error, nothing else), "
               "C09_parser_total and the whitespace-insensitivity theorems; C09_code_*: the syntax classes, all parse actions and the "
               "expression-to-terms conversion as translated from data.py / grammar.py / serializer.py on this run equal model/Syntax.v "
-              "(replaying the generated parse actions over any tree gives fold_expr) (props/C09.v). model/Grammar.v is validated "
+              "(replaying the generated parse actions over any tree gives fold_expr), and C09_code_parse_expr: the grammar's rule structure "
+              "as translated from grammar.py equals the hand-written PEG parser on every string (props/C09.v). model/Grammar.v is validated "
               "against the real pyparsing grammar on every token string up to length 3/4 and random strings; model/Syntax.v against the "
               "real parse actions; end to end the implementation must agree with parse_terms and with an independent exact decision "
               "of the relation's meaning over all real points."),
